@@ -187,7 +187,7 @@ def shrink(mod, plan, signature, max_execs=150, wall_s=90):
 
 
 def write_replay(prop, plan, violation, seed, note=''):
-    d = os.path.join(VERIF, 'replays')
+    d = os.environ.get('VERIF_REPLAY_DIR', os.path.join(VERIF, 'replays'))
     os.makedirs(d, exist_ok=True)
     name = '%s-%s-%s.json' % (prop, seed, kernel.sha([plan, violation.signature]))
     path = os.path.join(d, name)
@@ -343,8 +343,9 @@ def check(mod, tier, seed):
     }
     if hasattr(mod, 'evidence_extra'):
         evidence['coverage'].update(mod.evidence_extra(records))
-    os.makedirs(os.path.join(VERIF, 'evidence'), exist_ok=True)
-    with open(os.path.join(VERIF, 'evidence', mod.PROP + '.json'), 'w') as f:
+    evdir = os.environ.get('VERIF_EVIDENCE_DIR', os.path.join(VERIF, 'evidence'))
+    os.makedirs(evdir, exist_ok=True)
+    with open(os.path.join(evdir, mod.PROP + '.json'), 'w') as f:
         json.dump(evidence, f, indent=1, default=str)
 
     print('%s %s seed=%d: %d evaluations (%d plans, %d simulated processes) in %.1fs, %d distinct non-trivial, '
